@@ -55,6 +55,8 @@ def make_objective(name, np, ub, rettype):
         return lambda x: conv(np.sum(x) - 0.25)
     if name == 'positive':
         return lambda x: conv(np.sum(np.abs(x)) + 0.5)
+    if name == 'fmax':
+        return lambda x: sys.float_info.max
     raise KeyError(name)
 
 
